@@ -19,6 +19,7 @@ import (
 	"go/ast"
 	"go/token"
 	"go/types"
+	"sort"
 	"strings"
 )
 
@@ -27,6 +28,15 @@ var listedMethods = []string{
 	"rtoManager.getRTO",
 	"rtoManager.setNewRTT",
 	"rtoManager.reset",
+	// sender half (C10/C15): window accessors and the cwnd clamp, DATA chunk sizes
+	"Association.MTU",
+	"Association.CWND",
+	"Association.RWND",
+	"Association.setCWND",
+	"Association.setRWND",
+	"chunkPayloadData.isIData",
+	"chunkPayloadData.chunkSize",
+	"chunkPayloadData.chunkSizeInPacket",
 }
 
 func (t *ftr) fsuffix() string {
@@ -35,6 +45,8 @@ func (t *ftr) fsuffix() string {
 	}
 	return ""
 }
+
+func (t *ftr) recvIdentName() string { return t.recv.Name() }
 
 // recvField: `m.f` with m the receiver and f a struct field → "m_f".
 func (t *ftr) recvField(sel *ast.SelectorExpr) (string, bool) {
@@ -83,27 +95,134 @@ func (t *ftr) isRecvMutexCall(e ast.Expr) bool {
 }
 
 type mfield struct {
-	name    string // Go field name
-	ty      types.Type
+	name    string // Go field name; "<f>#len" for the pseudo field len(m.<f>)
+	lty     string // Lean type
 	written bool
+	order   int // position in the struct declaration (promoted fields after the direct ones)
 }
 
-// methodFields: the basic-typed receiver fields the body mentions, in declaration order.
+func (f *mfield) lean(recv string) string {
+	return leanName(recv + "_" + strings.ReplaceAll(f.name, "#", "_"))
+}
+
+// fields of the already translated listed methods (by key): a listed method may call them on its own receiver
+var methodFieldCache = map[string][]*mfield{}
+var methodRecvName = map[string]string{}
+var methodWrites = map[string]bool{}
+
+// atomicAccess: atomic.LoadUintN(&m.f) / atomic.StoreUintN(&m.f, v) on a receiver field → (selector, value or nil)
+func (t *ftr) atomicAccess(call *ast.CallExpr) (sel *ast.SelectorExpr, val ast.Expr, store bool, ok bool) {
+	fun, isSel := call.Fun.(*ast.SelectorExpr)
+	if !isSel {
+		return nil, nil, false, false
+	}
+	id, isID := fun.X.(*ast.Ident)
+	if !isID {
+		return nil, nil, false, false
+	}
+	pn, isPkg := t.c.info.Uses[id].(*types.PkgName)
+	if !isPkg || pn.Imported().Path() != "sync/atomic" {
+		return nil, nil, false, false
+	}
+	isLoad := strings.HasPrefix(fun.Sel.Name, "LoadUint") || strings.HasPrefix(fun.Sel.Name, "LoadInt")
+	isStore := strings.HasPrefix(fun.Sel.Name, "StoreUint") || strings.HasPrefix(fun.Sel.Name, "StoreInt")
+	if !(isLoad && len(call.Args) == 1) && !(isStore && len(call.Args) == 2) {
+		return nil, nil, false, false
+	}
+	un, isUn := call.Args[0].(*ast.UnaryExpr)
+	if !isUn || un.Op != token.AND {
+		return nil, nil, false, false
+	}
+	s, isS := un.X.(*ast.SelectorExpr)
+	if !isS {
+		return nil, nil, false, false
+	}
+	if _, isField := t.recvField(s); !isField {
+		return nil, nil, false, false
+	}
+	if isStore {
+		return s, call.Args[1], true, true
+	}
+	return s, nil, false, true
+}
+
+// recvLen: len(m.f) with m the receiver → pseudo field "f#len"
+func (t *ftr) recvLen(call *ast.CallExpr) (string, bool) {
+	id, ok := call.Fun.(*ast.Ident)
+	if !ok || id.Name != "len" || len(call.Args) != 1 {
+		return "", false
+	}
+	if _, isBuiltin := t.c.info.Uses[id].(*types.Builtin); !isBuiltin {
+		return "", false
+	}
+	sel, ok := call.Args[0].(*ast.SelectorExpr)
+	if !ok {
+		return "", false
+	}
+	if _, isField := t.recvField(sel); !isField {
+		return "", false
+	}
+	return sel.Sel.Name + "#len", true
+}
+
+// recvMethodCall: m.g(args) with m the receiver and T.g an already translated listed method → its key
+func (t *ftr) recvMethodCall(call *ast.CallExpr) (string, bool) {
+	sel, ok := call.Fun.(*ast.SelectorExpr)
+	if !ok || t.recv == nil {
+		return "", false
+	}
+	id, ok := sel.X.(*ast.Ident)
+	if !ok || t.c.info.Uses[id] != t.recv {
+		return "", false
+	}
+	s, ok := t.c.info.Selections[sel]
+	if !ok || s.Kind() != types.MethodVal {
+		return "", false
+	}
+	rt := t.recv.Type()
+	if p, isPtr := rt.(*types.Pointer); isPtr {
+		rt = p.Elem()
+	}
+	nt, ok := rt.(*types.Named)
+	if !ok {
+		return "", false
+	}
+	key := nt.Obj().Name() + "." + sel.Sel.Name
+	if _, done := methodFieldCache[key]; !done {
+		return "", false
+	}
+	return key, true
+}
+
+// methodFields: the basic-typed receiver fields the body mentions (directly, through sync/atomic, as len(m.f),
+// or through a call of another listed method on the same receiver), in declaration order.
 func (t *ftr) methodFields(fd *ast.FuncDecl, st *types.Struct) []*mfield {
 	used := map[string]*mfield{}
+	pos := map[string]int{}
+	for i := 0; i < st.NumFields(); i++ {
+		pos[st.Field(i).Name()] = i
+	}
+	add := func(name, lty string, w bool) {
+		f := used[name]
+		if f == nil {
+			base := strings.TrimSuffix(name, "#len")
+			o, direct := pos[base]
+			if !direct {
+				o = 1 << 20 // promoted from an embedded struct
+			}
+			f = &mfield{name: name, lty: lty, order: o}
+			used[name] = f
+		}
+		f.written = f.written || w
+	}
 	note := func(sel *ast.SelectorExpr, w bool) {
 		if _, ok := t.recvField(sel); !ok {
 			return
 		}
 		if _, basic := t.typeOf(sel).Underlying().(*types.Basic); !basic {
-			return // mutexes etc.: only legal inside the skipped Lock/Unlock statements
+			return // mutexes, slices etc.: only legal inside skipped Lock/Unlock statements or len(...)
 		}
-		f := used[sel.Sel.Name]
-		if f == nil {
-			f = &mfield{name: sel.Sel.Name, ty: t.typeOf(sel)}
-			used[sel.Sel.Name] = f
-		}
-		f.written = f.written || w
+		add(sel.Sel.Name, t.leanType(sel, t.typeOf(sel)), w)
 	}
 	ast.Inspect(fd.Body, func(n ast.Node) bool {
 		switch x := n.(type) {
@@ -115,17 +234,36 @@ func (t *ftr) methodFields(fd *ast.FuncDecl, st *types.Struct) []*mfield {
 			}
 		case *ast.IncDecStmt:
 			t.fail(x, "++/-- not supported in translated methods")
+		case *ast.CallExpr:
+			if sel, _, store, ok := t.atomicAccess(x); ok {
+				note(sel, store)
+			}
+			if name, ok := t.recvLen(x); ok {
+				add(name, "Int", false)
+			}
+			if key, ok := t.recvMethodCall(x); ok {
+				if methodWrites[key] {
+					t.fail(x, "call of a listed method that assigns receiver fields")
+				}
+				for _, f := range methodFieldCache[key] {
+					add(f.name, f.lty, false)
+				}
+			}
 		case *ast.SelectorExpr:
 			note(x, false)
 		}
 		return true
 	})
 	var out []*mfield
-	for i := 0; i < st.NumFields(); i++ {
-		if f := used[st.Field(i).Name()]; f != nil {
-			out = append(out, f)
-		}
+	for _, f := range used {
+		out = append(out, f)
 	}
+	sort.Slice(out, func(i, j int) bool {
+		if out[i].order != out[j].order {
+			return out[i].order < out[j].order
+		}
+		return out[i].name < out[j].name
+	})
 	return out
 }
 
@@ -148,8 +286,10 @@ func (t *ftr) method(key string, fd *ast.FuncDecl) string {
 
 	var params []string
 	for _, f := range fields {
-		params = append(params, fmt.Sprintf("(%s : %s)", leanName(rid.Name+"_"+f.name), t.leanType(fd, f.ty)))
+		params = append(params, fmt.Sprintf("(%s : %s)", f.lean(rid.Name), f.lty))
 	}
+	methodFieldCache[key] = fields
+	methodRecvName[key] = rid.Name
 	for _, f := range fd.Type.Params.List {
 		ty := t.leanType(f, t.typeOf(f.Type))
 		for _, n := range f.Names {
@@ -179,9 +319,10 @@ func (t *ftr) method(key string, fd *ast.FuncDecl) string {
 	var written []string
 	for _, f := range fields {
 		if f.written {
-			n := leanName(rid.Name + "_" + f.name)
+			n := f.lean(rid.Name)
 			written = append(written, n)
-			comps = append(comps, comp{n, t.leanType(fd, f.ty)})
+			comps = append(comps, comp{n, f.lty})
+			methodWrites[key] = true
 		}
 	}
 	if len(comps) == 0 {
